@@ -27,7 +27,7 @@ def main():
         for v in out["violations"]:
             key = (v["oracle"], tuple(sorted((k, str(x)) for k, x in v["features"].items())))
             viol[key] += 1
-            first.setdefault((v["oracle"], v["features"].get("exc")), (i, v["detail"]))
+            first.setdefault((v["oracle"], v["features"].get("exc"), v["features"].get("k")), (i, v["detail"]))
     dt = time.time() - t0
     print(f"{n} runs in {dt:.1f}s ({n/dt:.0f}/s) nontrivial={nontriv}")
     print(dict(stats))
